@@ -26,7 +26,9 @@ RULE = ("cases: every type expression with <=3 wrappers over the 5 specified sca
         "{inline literal, variable, variable with default, nullable variable with default at a non-null position, variable nested "
         "in a list/object literal}; plus HISTORIES: a schema that has been used, then derived (visibility transform hiding input fields / types, "
         "camel-case transform, `fields` setter, clone; one or two steps), checked against the derived schema's own declaration with the source's values "
-        "in the stream, then the source again; plus TREES: nested selections over an interface with two implementations that give the field "
+        "in the stream, then the source again — including NEUTRAL derivations (unrelated extend_schema, clone, identity visibility transform), "
+        "extend enum / extend input, with enums whose internal values are falsy (0, False, \"\") and non-identity custom scalars: the same requests "
+        "must hand the resolvers the source's internal values; plus TREES: nested selections over an interface with two implementations that give the field "
         "different argument sets/defaults, lists of objects, resolver errors, arguments rejected at depth 2-5; non-trivial = distinct (registry, argument type, default, route, value) whose value is not a "
         "bare scalar-at-scalar success (i.e. involves null, a wrapper, an enum, an input object, a boundary or a rejection)")
 ASSUMPTIONS = [
@@ -1714,6 +1716,14 @@ def replay(ctx, data, record=False):
         return True
     if inp.get("check") == "extreme":
         return replay_extreme(inp)
+    if inp.get("check") == "declaration":
+        from corr import C07_history
+        h = inp["history"]
+        src_reg = U.reg_from_jsonable(h["source_reg"])
+        _, _, _ = C07_history.replay_world(sys.modules[__name__], dict(h, plan=[]))
+        src, _, _ = C07_history.replay_world(sys.modules[__name__], dict(h, plan=[]))
+        derived = C07_history.apply_plan(src.schema, h["plan"])
+        return not C07_history.declaration_changes(src_reg, C07_history.reg_from_schema(derived))
     reg = U.reg_from_jsonable(inp["reg"])
     before = sum(f["count"] for f in ctx.found if f["kind"] == "property")
     chk = Checker(ctx, reg, "replay")
